@@ -55,6 +55,11 @@ def selftest(pid, repo):
 
 
 def main(argv=None):
+    try:
+        import signal
+        signal.signal(signal.SIGPIPE, signal.SIG_DFL)      # `check ... | head` must not turn into a traceback
+    except Exception:
+        pass
     ap = argparse.ArgumentParser()
     ap.add_argument('pid')
     ap.add_argument('--tier', default=os.environ.get('VERIF_TIER', 'quick'), choices=['quick', 'thorough'])
